@@ -9,6 +9,7 @@ import (
 	"verifharness/c06"
 	"verifharness/c09"
 	"verifharness/c16"
+	"verifharness/c17"
 	"verifharness/c18"
 	"verifharness/wk"
 )
@@ -18,6 +19,7 @@ var runners = map[string]func(*wk.Job, *wk.Worker) error{
 	"c06": c06.Run,
 	"c09": c09.Run,
 	"c16": c16.Run,
+	"c17": c17.Run,
 	"c18": c18.Run,
 }
 
